@@ -78,6 +78,12 @@ class DataIndexView(BaseDataIndex):
             return _FilterNode(key, children, *args)
 
         kwargs = {"prefix": prefix} if prefix is not None else {}
+        if prefix and ensure_loaded:
+            # the prefix may lie inside a directory entry that is not loaded yet
+            item = self._index.longest_prefix(prefix)
+            if item:
+                dir_key, dir_entry = item
+                self._index._load(dir_key, dir_entry)
         stack = deque([self.traverse(_node_factory, **kwargs)])
         while stack:
             node = stack.popleft()
